@@ -20,8 +20,16 @@ import (
 	"unsafe"
 )
 
-// NumSites is set by the generated file zsites.go in the instrumented copy.
-var NumSites = 0
+// NumSites and HotSites are set by the generated file zsites.go in the
+// instrumented copy. A site is hot when the statement before or after it
+// touches a package-level variable, sync or sync/atomic; site 0 (the shims'
+// own yields at lock, pool and channel operations) is always hot.
+var (
+	NumSites  = 0
+	HotSites  []bool
+	hotHits   uint64 // hot yields executed by task sch.First in this run
+	HotYields uint64
+)
 
 const (
 	MaxTasks    = 8
@@ -30,9 +38,11 @@ const (
 
 // Strategy kinds.
 const (
-	StratExplicit = iota // follow Switches; default run-to-completion in task order
-	StratWalk            // random walk: at each yield switch with probability 1/WalkDen
-	StratPCT             // random priorities, Depth-1 priority change points
+	StratExplicit   = iota // follow Switches; default run-to-completion in task order
+	StratWalk              // random walk: at each yield switch with probability 1/WalkDen
+	StratPCT               // random priorities, Depth-1 priority change points
+	StratHotWalk           // random walk that switches with probability 1/HotDen at yields next to shared-state accesses, 1/WalkDen elsewhere
+	StratHotPreempt        // run task First until its HotK-th hot yield, run the others to completion, resume
 )
 
 // Switch is one scheduling decision that differs from "keep running".
@@ -52,7 +62,9 @@ type Schedule struct {
 	WalkDen  uint64   `json:"walk_den,omitempty"`
 	Depth    int      `json:"depth,omitempty"`
 	Horizon  uint64   `json:"horizon,omitempty"` // PCT: change points are drawn in [0,Horizon)
-	First    int      `json:"first"`             // task that starts
+	HotDen   uint64   `json:"hot_den,omitempty"`
+	HotK     uint64   `json:"hot_k,omitempty"`
+	First    int      `json:"first"` // task that starts
 	Switches []Switch `json:"switches,omitempty"`
 	GCSteps  []uint64 `json:"gc,omitempty"` // forced runtime.GC() at these global steps (fault F6)
 }
@@ -70,6 +82,7 @@ type Result struct {
 	MapServed uint64 // RangeMap calls over >= 2 keys
 	MapReord  uint64 // ... of which served in non-sorted order (fault F2)
 	Blocks    uint64 // Block() calls (shimmed lock contention)
+	HotHits   uint64 // hot yields of task First (StratHotPreempt)
 }
 
 type task struct {
@@ -205,6 +218,9 @@ func Yield(site int) {
 	digest = mix(digest, uint64(t+1)<<32|uint64(uint32(site)))
 	if site < len(SiteHits) {
 		SiteHits[site]++
+	}
+	if site < len(HotSites) && HotSites[site] {
+		HotYields++
 	}
 	if t < 0 {
 		return
@@ -372,6 +388,45 @@ func decide(step uint64, t int, site int32, finish bool) int {
 			return t
 		}
 		return nthRunnable(t, int(splitmix(&rng)%uint64(n)))
+	case StratHotWalk:
+		if finish {
+			n := countRunnable(t)
+			if n == 0 {
+				return -1
+			}
+			return nthRunnable(t, int(splitmix(&rng)%uint64(n)))
+		}
+		den := sch.WalkDen
+		if den == 0 {
+			den = 1024
+		}
+		if int(site) < len(HotSites) && HotSites[site] {
+			den = sch.HotDen
+			if den == 0 {
+				den = 2
+			}
+		}
+		if splitmix(&rng)%den != 0 {
+			return t
+		}
+		n := countRunnable(t)
+		if n == 0 {
+			return t
+		}
+		return nthRunnable(t, int(splitmix(&rng)%uint64(n)))
+	case StratHotPreempt:
+		if finish {
+			return lowestRunnable(t)
+		}
+		if t == sch.First && int(site) < len(HotSites) && HotSites[site] {
+			hotHits++
+			if hotHits == sch.HotK+1 {
+				if nx := lowestRunnable(t); nx >= 0 {
+					return nx
+				}
+			}
+		}
+		return t
 	case StratPCT:
 		if !finish {
 			for i := 0; i < pctN; i++ {
@@ -479,6 +534,7 @@ func Run(fns []func(), s Schedule, maxYields uint64) Result {
 	rng = s.Seed ^ 0x6a09e667f3bcc909
 	FaultSeed(s.Seed)
 	gstep, digest = 0, 0
+	hotHits = 0
 	mapDigest, mapServed, mapReord = 0, 0, 0
 	maxSteps = maxYields
 	noProg, deadlock, blockRun, blocks = false, false, 0, 0
@@ -510,7 +566,7 @@ func Run(fns []func(), s Schedule, maxYields uint64) Result {
 				first = i
 			}
 		}
-	} else if s.Kind == StratWalk {
+	} else if s.Kind == StratWalk || s.Kind == StratHotWalk {
 		first = int(splitmix(&rng) % uint64(ntasks))
 	}
 	if first < 0 || first >= ntasks {
@@ -538,6 +594,7 @@ func Run(fns []func(), s Schedule, maxYields uint64) Result {
 		MapServed: mapServed,
 		MapReord:  mapReord,
 		Blocks:    blocks,
+		HotHits:   hotHits,
 	}
 	res.TaskSteps = make([]uint64, ntasks)
 	for i := 0; i < ntasks; i++ {
